@@ -1268,11 +1268,17 @@ MUTANTS = [
       "            b = boundary\n            t2f_mask = "
       "np.zeros_like(self.t2f)\n            columns = self.f2t[0, b]"),
      "C17-R4"),
-    ("to_meshio adds its keys to the caller's dictionary again",
-     (_IO, "        cell_data = {**({} if cell_data is None else cell_data),"
-      "\n                     **mesh._encode_cell_data()}",
-      "        if cell_data is None:\n            cell_data = {}\n"
-      "        cell_data.update(mesh._encode_cell_data())"), "C17-R5"),
+    ("to_meshio merges its keys into the caller's dictionary (no copy, "
+     "in-place update)",
+     (_IO,
+      "    if cell_data is not None:\n        cell_data = {k: (list(v) if "
+      "isinstance(v, (list, tuple)) else [v])\n                     for k, "
+      "v in cell_data.items()}\n\n    if encode_cell_data:\n        "
+      "cell_data = {**({} if cell_data is None else cell_data),\n"
+      "                     **mesh._encode_cell_data()}",
+      "    if encode_cell_data:\n        if cell_data is None:\n"
+      "            cell_data = {}\n        cell_data.update("
+      "mesh._encode_cell_data())"), "C17-R5"),
     ("from_dict consumes the caller's dictionary again",
      (FM, "        data = dict(data)  # do not modify the argument\n", ""),
      "C17-R5"),
@@ -1282,6 +1288,12 @@ MUTANTS = [
       "'subdomains': subdomains,"), "C17-R1"),
 ]
 TWINS = [
+    ("encoded tags merged into the copied containers in place (seed C17-4 "
+     "on the repaired tree: the copies protect the caller's objects)",
+     [(_IO, "        cell_data = {**({} if cell_data is None else cell_data),"
+       "\n                     **mesh._encode_cell_data()}",
+       "        cell_data = {} if cell_data is None else cell_data\n"
+       "        cell_data.update(mesh._encode_cell_data())")]),
     ("legacy MSH 2.2 parser entered without a table of names (harmless "
      "since unnamed groups create no tag: seed C17-6 on the repaired tree)",
      [(FIO, _G22, "    if len(boundaries) == 0 and 'gmsh:physical' in "
